@@ -1,3 +1,474 @@
-import E3nnVerif.Model.Reduce
+import E3nnVerif.Theory.PermCode
+import E3nnVerif.Theory.PermGerminate
+import E3nnVerif.Theory.PermMatrix
+import E3nnVerif.Theory.ReduceGerminate
+import E3nnVerif.Theory.Reduce
+/-
+C17 — permutation utilities form S_n; symmetric-tensor bases orthonormal and complete.
+
+All statements are about the executable models `E3nnVerif.PermModel` (e3nn/math/perm.py) and
+`E3nnVerif.ReduceModel` (e3nn/math/_reduce.py), for ALL n / all formulas / all dims.  The hypotheses are the
+guards of the real code: `isPerm p = true` is exactly what `compose` asserts and what makes `inverse`, `to_int`
+return instead of raising ValueError.  Correspondence of the models with the real code: harness/c17.py.
+
+NOT covered by theorems (correspondence / oracle checks only, see harness/c17.py):
+  * orthonormalize, complete_basis, direct_sum (_linalg.py) and perm.standard_representation: float Gram–Schmidt
+    with eps thresholds — no exact model.
+  * the float value 1/sqrt(size) in `reduce_permutation` (the model carries sign, position and size exactly).
+  * the string splitting of `germinate_formulas` is modelled with Lean's `String.splitOn`/`startsWith`; the theorems
+    start from `parseTerms formula`.
+-/
 namespace E3nnVerif.Props.C17
+open E3nnVerif.PermModel E3nnVerif.ReduceModel
+
+/-! ## is_perm -/
+
+/-- `is_perm p` ⇔ `p` is a rearrangement of `0..len p - 1` -/
+theorem is_perm_iff (p : List ℕ) : isPerm p = true ↔ p.Perm (List.range p.length) := isPerm_iff
+
+example : isPerm [2, 0, 1] = true ∧ isPerm [0, 0, 1] = false ∧ isPerm [0, 3, 1] = false := by decide
+
+/-! ## integer encoding: a bijection `[0, n!) ↔ S_n` -/
+
+theorem fact_eq_factorial (n : ℕ) : fact n = n.factorial := by
+  induction n with
+  | zero => rfl
+  | succ n ih => rw [fact_succ, ih, Nat.factorial_succ]
+
+/-- `from_int i n` is a permutation of `n` points for EVERY python int `i` -/
+theorem from_int_is_perm (i : ℤ) (n : ℕ) : isPerm (fromInt i n) = true ∧ (fromInt i n).length = n :=
+  ⟨isPerm_iff.2 (isPerm_fromInt i n), length_fromInt i n⟩
+
+/-- `to_int (from_int i n) = i` for `i < n!` -/
+theorem to_int_from_int (n i : ℕ) (h : i < n.factorial) : toInt (fromInt (i : ℤ) n) = .ok i :=
+  toInt_fromInt n i (by rwa [fact_eq_factorial])
+
+/-- `from_int (to_int p) n = p` for permutations, and `to_int p < n!` -/
+theorem from_int_to_int (p : List ℕ) (h : isPerm p = true) :
+    ∃ i, toInt p = .ok i ∧ i < p.length.factorial ∧ fromInt (i : ℤ) p.length = p := by
+  obtain ⟨i, h1, h2, h3⟩ := fromInt_toInt (isPerm_iff.1 h)
+  exact ⟨i, h1, by rwa [← fact_eq_factorial], h3⟩
+
+/-- `to_int` returns (instead of raising ValueError) exactly on permutations -/
+theorem to_int_ok_iff (p : List ℕ) : (∃ i, toInt p = .ok i) ↔ isPerm p = true := by
+  constructor
+  · rintro ⟨i, hi⟩; exact isPerm_iff.2 (isPerm_of_toInt_ok hi)
+  · intro h; obtain ⟨i, hi, _⟩ := from_int_to_int p h; exact ⟨i, hi⟩
+
+/-- on non-permutations `to_int` raises ValueError -/
+theorem to_int_error (p : List ℕ) (h : isPerm p = false) : toInt p = .error .value := by
+  cases hr : toInt p with
+  | ok i => exact absurd (isPerm_iff.2 (isPerm_of_toInt_ok hr)) (by rw [h]; simp)
+  | error e => rw [toIntLoop_error _ _ _ _ _ hr]
+
+/-- python ints outside `[0, n!)` (negative, large) wrap around: `from_int i n = from_int (i mod n!) n` -/
+theorem from_int_periodic (i : ℤ) (n : ℕ) : fromInt (i % (n.factorial : ℤ)) n = fromInt i n := by
+  rw [← fact_eq_factorial]; exact fromInt_emod i n
+
+/-- the encoding is a bijection from `{0, …, n!-1}` onto the permutations of `n` points -/
+theorem from_int_bijOn (n : ℕ) :
+    Set.BijOn (fun i : ℕ => fromInt (i : ℤ) n) (Set.Iio n.factorial) {p | isPerm p = true ∧ p.length = n} := by
+  refine ⟨fun i _ => from_int_is_perm i n, ?_, ?_⟩
+  · intro i hi j hj e
+    have h1 := to_int_from_int n i hi
+    have h2 := to_int_from_int n j hj
+    simp only at e
+    rw [e, h2] at h1
+    exact (Except.ok.inj h1).symm
+  · rintro p ⟨hp, rfl⟩
+    obtain ⟨i, _, h2, h3⟩ := from_int_to_int p hp
+    exact ⟨i, h2, h3⟩
+
+/-- `group n` lists every permutation of `n` points exactly once -/
+theorem group_spec (n : ℕ) :
+    (group n).Nodup ∧ (group n).length = n.factorial ∧ ∀ p, p ∈ group n ↔ isPerm p = true ∧ p.length = n :=
+  ⟨nodup_group n, by rw [length_group, fact_eq_factorial], fun p => by rw [mem_group, isPerm_iff]⟩
+
+example : toInt [2, 0, 1] = .ok 2 ∧ fromInt 2 3 = [2, 0, 1] ∧ fromInt (-1) 3 = [2, 1, 0] := by decide
+
+/-! ## group axioms for compose / inverse / identity -/
+
+/-- the guards of `compose` (AssertionError otherwise) -/
+theorem compose_ok_iff (p q : List ℕ) :
+    (∃ r, compose p q = .ok r) ↔ isPerm p = true ∧ isPerm q = true ∧ p.length = q.length := by
+  rw [compose_eq]
+  by_cases h : isPerm p = true ∧ isPerm q = true ∧ p.length = q.length
+  · simp [h]
+  · simp [h]
+
+/-- convention of the code: `compose p q` applies `q` FIRST: `(p ∘ q)[i] = p[q[i]]` -/
+theorem compose_apply {p q r : List ℕ} (h : compose p q = .ok r) :
+    r.length = p.length ∧ ∀ i < p.length, r.getD i 0 = p.getD (q.getD i 0) 0 := by
+  rw [compose_eq] at h
+  split_ifs at h with hc
+  cases h
+  exact ⟨length_composeRaw p q, fun i hi => getD_composeRaw hi⟩
+
+/-- closure -/
+theorem compose_closed {p q r : List ℕ} (h : compose p q = .ok r) : isPerm r = true ∧ r.length = p.length := by
+  rw [compose_eq] at h
+  split_ifs at h with hc
+  cases h
+  exact ⟨isPerm_iff.2 ((isPerm_iff.1 hc.1).composeRaw (isPerm_iff.1 hc.2.1) hc.2.2), length_composeRaw p q⟩
+
+theorem compose_of_isPerm {p q : List ℕ} (hp : isPerm p = true) (hq : isPerm q = true) (h : p.length = q.length) :
+    compose p q = .ok (composeRaw p q) := by
+  rw [compose_eq, if_pos ⟨hp, hq, h⟩]
+
+/-- associativity -/
+theorem compose_assoc {p q r : List ℕ} (hp : isPerm p = true) (hq : isPerm q = true) (hr : isPerm r = true)
+    (hpq : p.length = q.length) (hqr : q.length = r.length) :
+    (compose p q >>= fun pq => compose pq r) = (compose q r >>= fun qr => compose p qr) ∧
+    ∃ s, (compose p q >>= fun pq => compose pq r) = .ok s := by
+  have hP := isPerm_iff.1 hp
+  have hQ := isPerm_iff.1 hq
+  have hR := isPerm_iff.1 hr
+  have e1 : (compose p q >>= fun pq => compose pq r) = .ok (composeRaw (composeRaw p q) r) := by
+    rw [compose_of_isPerm hp hq hpq]
+    exact compose_of_isPerm (isPerm_iff.2 (hP.composeRaw hQ hpq)) hr (by simp; omega)
+  have e2 : (compose q r >>= fun qr => compose p qr) = .ok (composeRaw p (composeRaw q r)) := by
+    rw [compose_of_isPerm hq hr hqr]
+    exact compose_of_isPerm hp (isPerm_iff.2 (hQ.composeRaw hR hqr)) (by simp; omega)
+  rw [e1, e2, composeRaw_assoc hR hpq hqr]
+  exact ⟨rfl, _, rfl⟩
+
+/-- identity laws -/
+theorem compose_identity {p : List ℕ} (hp : isPerm p = true) :
+    isPerm (identity p.length) = true ∧ compose (identity p.length) p = .ok p ∧ compose p (identity p.length) = .ok p := by
+  have hid : isPerm (identity p.length) = true := isPerm_iff.2 (isPerm_identity _)
+  refine ⟨hid, ?_, ?_⟩
+  · rw [compose_of_isPerm hid hp (by simp), identity_composeRaw (isPerm_iff.1 hp)]
+  · rw [compose_of_isPerm hp hid (by simp), composeRaw_identity]
+
+/-- `inverse` raises ValueError exactly on non-permutations -/
+theorem inverse_error_iff (p : List ℕ) : inverse p = .error .value ↔ isPerm p = false := by
+  rw [inverse_eq]
+  cases h : isPerm p <;> simp
+
+/-- left and right inverse -/
+theorem inverse_spec {p : List ℕ} (hp : isPerm p = true) :
+    ∃ ip, inverse p = .ok ip ∧ isPerm ip = true ∧ ip.length = p.length ∧
+      compose p ip = .ok (identity p.length) ∧ compose ip p = .ok (identity p.length) := by
+  have hP := isPerm_iff.1 hp
+  have hI : isPerm (inverseRaw p) = true := isPerm_iff.2 hP.inverseRaw
+  refine ⟨inverseRaw p, by rw [inverse_eq, if_pos hp], hI, length_inverseRaw p, ?_, ?_⟩
+  · rw [compose_of_isPerm hp hI (by simp), composeRaw_inverseRaw hP]
+  · rw [compose_of_isPerm hI hp (by simp), inverseRaw_composeRaw hP]
+
+example : compose [1, 2, 0] [0, 2, 1] = .ok [1, 0, 2] ∧ inverse [1, 2, 0] = .ok [2, 0, 1] ∧
+    compose [1, 2, 0] [0, 1] = .error .assertion ∧ inverse [1, 1, 0] = .error .value := by decide
+
+/-- the list model of S_n is isomorphic to Mathlib's `Equiv.Perm (Fin n)`: `toEquiv` is a bijection … -/
+theorem toEquiv_bijective (n : ℕ) :
+    (∀ σ : Equiv.Perm (Fin n), ∃ (p : List ℕ) (hp : IsPerm p) (hn : p.length = n), toEquiv p hp hn = σ) ∧
+    (∀ (p q : List ℕ) (hp : IsPerm p) (hq : IsPerm q) (hn : p.length = n) (hm : q.length = n),
+      toEquiv p hp hn = toEquiv q hq hm → p = q) :=
+  ⟨toEquiv_surjective, fun _ _ hp hq hn hm h => toEquiv_injective hp hq hn hm h⟩
+
+/-- … and a homomorphism: `compose p q ↦ toEquiv p * toEquiv q`, `identity ↦ 1`, `inverse ↦ ⁻¹` -/
+theorem toEquiv_hom {n : ℕ} {p q : List ℕ} (hp : IsPerm p) (hq : IsPerm q) (hn : p.length = n) (hm : q.length = n) :
+    toEquiv (composeRaw p q) (hp.composeRaw hq (by omega)) (by simp [hn]) = toEquiv p hp hn * toEquiv q hq hm ∧
+    toEquiv (identity n) (isPerm_identity n) (length_identity n) = 1 ∧
+    toEquiv (inverseRaw p) hp.inverseRaw (by simp [hn]) = (toEquiv p hp hn)⁻¹ :=
+  ⟨toEquiv_composeRaw hp hq hn hm, toEquiv_identity n, toEquiv_inverseRaw hp hn⟩
+
+/-! ## sign -/
+
+/-- `perm.sign` (parity of the number of even-length cycles) IS Mathlib's `Equiv.Perm.sign` -/
+theorem sign_eq_mathlib {n : ℕ} {p : List ℕ} (hp : IsPerm p) (hn : p.length = n) :
+    sign p = .ok ((Equiv.Perm.sign (toEquiv p hp hn) : ℤˣ) : ℤ) := sign_eq_sign hp hn
+
+/-- sign is a homomorphism: `sign (compose p q) = sign p * sign q` -/
+theorem sign_compose {p q r : List ℕ} (h : compose p q = .ok r) :
+    ∃ a b, sign p = .ok a ∧ sign q = .ok b ∧ sign r = .ok (a * b) ∧ (a = 1 ∨ a = -1) := by
+  rw [compose_eq] at h
+  split_ifs at h with hc
+  cases h
+  have hP := isPerm_iff.1 hc.1
+  have hQ := isPerm_iff.1 hc.2.1
+  have ha := Int.units_eq_one_or (Equiv.Perm.sign (toEquiv p hP rfl))
+  refine ⟨_, _, sign_eq_sign hP rfl, sign_eq_sign hQ hc.2.2.symm, ?_, ?_⟩
+  · rw [sign_eq_sign (hP.composeRaw hQ hc.2.2) (length_composeRaw p q),
+      toEquiv_composeRaw hP hQ rfl hc.2.2.symm, Equiv.Perm.sign_mul, Units.val_mul]
+  · rcases ha with h | h <;> rw [h] <;> simp
+
+theorem sign_identity (n : ℕ) : sign (identity n) = .ok 1 := by
+  rw [sign_eq_sign (isPerm_identity n) (length_identity n), toEquiv_identity, Equiv.Perm.sign_one]; rfl
+
+theorem sign_inverse {p : List ℕ} (hp : isPerm p = true) : sign (inverseRaw p) = sign p := by
+  have hP := isPerm_iff.1 hp
+  rw [sign_eq_sign hP rfl, sign_eq_sign hP.inverseRaw (length_inverseRaw p), toEquiv_inverseRaw hP rfl,
+    Equiv.Perm.sign_inv]
+
+/-- the transposition of `i ≠ j` as a tuple -/
+def swapTuple (n i j : ℕ) : List ℕ := (List.range n).map fun x => if x = i then j else if x = j then i else x
+
+/-- the sign of a transposition is `-1` -/
+theorem sign_transposition {n i j : ℕ} (hi : i < n) (hj : j < n) (hij : i ≠ j) :
+    isPerm (swapTuple n i j) = true ∧ sign (swapTuple n i j) = .ok (-1) := by
+  have hlen : (swapTuple n i j).length = n := by simp [swapTuple]
+  have hget : ∀ x < n, (swapTuple n i j).getD x 0 = if x = i then j else if x = j then i else x := by
+    intro x hx
+    simp [swapTuple, List.getD_eq_getElem?_getD, hx]
+  have hP : IsPerm (swapTuple n i j) := by
+    apply IsPerm.of_forall_mem
+    intro x hx
+    rw [hlen] at hx
+    have key : ∀ y < n, (swapTuple n i j).getD y 0 ∈ swapTuple n i j := fun y hy => by
+      rw [getD_of_lt (by rw [hlen]; exact hy)]; exact List.getElem_mem _
+    by_cases h1 : x = i
+    · have := key j hj; rw [hget j hj] at this; subst h1
+      simpa [hij, Ne.symm hij] using this
+    · by_cases h2 : x = j
+      · have := key i hi; rw [hget i hi] at this; subst h2; simpa using this
+      · have := key x hx; rw [hget x hx] at this; simpa [h1, h2] using this
+  refine ⟨isPerm_iff.2 hP, ?_⟩
+  have : toEquiv (swapTuple n i j) hP hlen = Equiv.swap (⟨i, hi⟩ : Fin n) ⟨j, hj⟩ := by
+    ext x
+    rw [toEquiv_apply, hget x x.2, Equiv.swap_apply_def]
+    by_cases h1 : x = (⟨i, hi⟩ : Fin n)
+    · simp [h1]
+    · by_cases h2 : x = (⟨j, hj⟩ : Fin n)
+      · simp [h2, Ne.symm hij]
+      · have h1' : (x : ℕ) ≠ i := fun h => h1 (Fin.ext h)
+        have h2' : (x : ℕ) ≠ j := fun h => h2 (Fin.ext h)
+        simp [h1, h2, h1', h2']
+  rw [sign_eq_sign hP hlen, this, Equiv.Perm.sign_swap (by intro h; exact hij (Fin.mk.inj h))]
+  rfl
+
+example : sign [1, 0, 3, 4, 2] = .ok (-1) ∧ sign (swapTuple 4 1 3) = .ok (-1) ∧ swapTuple 4 1 3 = [0, 3, 2, 1] := by
+  decide
+
+/-! ## cycle decomposition -/
+
+/-- `to_cycles p` returns duplicate-free, min-first cycles of length ≥ 2 that follow `p`
+    (`p[c[k]] = c[(k+1) mod len c]`), pairwise disjoint, and `p` fixes every other point … -/
+theorem to_cycles_spec {p : List ℕ} (hp : isPerm p = true) : ∃ cs, toCycles p = .ok cs ∧ CyclesSpec p cs :=
+  toCycles_spec (isPerm_iff.1 hp)
+
+/-- … hence applying the cycles reconstructs `p` -/
+theorem to_cycles_reconstruct {p : List ℕ} (hp : isPerm p = true) :
+    ∃ cs, toCycles p = .ok cs ∧ fromCycles p.length cs = p := by
+  obtain ⟨cs, h1, h2⟩ := to_cycles_spec hp
+  exact ⟨cs, h1, fromCycles_of_spec h2⟩
+
+example : toCycles [1, 0, 3, 4, 2] = .ok [[0, 1], [2, 3, 4]] ∧ fromCycles 5 [[0, 1], [2, 3, 4]] = [1, 0, 3, 4, 2] := by
+  decide
+
+/-! ## natural representation -/
+
+/-- `natural_representation p` raises exactly when `inverse p` does; otherwise it is an `n × n` 0/1 matrix … -/
+theorem natural_representation_ok {p : List ℕ} (hp : isPerm p = true) :
+    naturalRepresentation p = .ok (natRepRaw p) ∧ HasShape p.length p.length (natRepRaw p) ∧
+      ∀ r ∈ natRepRaw p, ∀ e ∈ r, e = 0 ∨ e = 1 := by
+  refine ⟨?_, hasShape_natRepRaw p, natRepRaw_entry_mem p⟩
+  unfold naturalRepresentation
+  rw [inverse_eq, if_pos hp]
+
+theorem natural_representation_error (p : List ℕ) (h : isPerm p = false) :
+    naturalRepresentation p = .error .value := by
+  unfold naturalRepresentation
+  rw [inverse_eq, h]; rfl
+
+/-- … namely Mathlib's permutation matrix of `p⁻¹` (`d[a, b] = 1 ⇔ p[b] = a`), so a permutation matrix -/
+theorem natural_representation_permMatrix {n : ℕ} {p : List ℕ} (hp : IsPerm p) (hn : p.length = n) :
+    toMatrix n n (natRepRaw p) = Matrix.permMatrixHom (R := ℤ) (toEquiv p hp hn) ∧
+    ∀ i j, toMatrix n n (natRepRaw p) i j = if toEquiv p hp hn j = i then 1 else 0 :=
+  ⟨toMatrix_natRepRaw hp hn, toMatrix_natRepRaw_apply hp hn⟩
+
+/-- homomorphism in the code's convention: `rep (compose p q) = rep p * rep q` -/
+theorem natural_representation_mul {n : ℕ} {p q r : List ℕ} (h : compose p q = .ok r) (hn : p.length = n) :
+    toMatrix n n (natRepRaw r) = toMatrix n n (natRepRaw p) * toMatrix n n (natRepRaw q) ∧
+    matMul (natRepRaw p) (natRepRaw q) p.length = natRepRaw r := by
+  rw [compose_eq] at h
+  split_ifs at h with hc
+  cases h
+  have hP := isPerm_iff.1 hc.1
+  have hQ := isPerm_iff.1 hc.2.1
+  exact ⟨toMatrix_natRepRaw_composeRaw hP hQ hn (by omega), matMul_natRepRaw hP hQ hc.2.2⟩
+
+/-- orthogonality: `rep p * (rep p)ᵀ = 1 = (rep p)ᵀ * rep p`; determinant = sign -/
+theorem natural_representation_orthogonal {n : ℕ} {p : List ℕ} (hp : IsPerm p) (hn : p.length = n) :
+    toMatrix n n (natRepRaw p) * (toMatrix n n (natRepRaw p)).transpose = 1 ∧
+    (toMatrix n n (natRepRaw p)).transpose * toMatrix n n (natRepRaw p) = 1 ∧
+    matMul (natRepRaw p) (transpose (natRepRaw p) p.length) p.length = idMatrix p.length ∧
+    (toMatrix n n (natRepRaw p)).det = ((Equiv.Perm.sign (toEquiv p hp hn) : ℤˣ) : ℤ) :=
+  ⟨(toMatrix_natRepRaw_mul_transpose hp hn).1, (toMatrix_natRepRaw_mul_transpose hp hn).2,
+    matMul_natRepRaw_transpose hp, det_toMatrix_natRepRaw hp hn⟩
+
+/-- the executable list-of-rows product/transpose/identity used above are Mathlib's -/
+theorem list_matrix_ops {m n l : ℕ} {A B : List (List ℤ)} (hA : HasShape m n A) (hB : HasShape n l B) :
+    toMatrix m l (matMul A B l) = toMatrix m n A * toMatrix n l B ∧
+    toMatrix n m (transpose A n) = (toMatrix m n A).transpose ∧ toMatrix n n (idMatrix n) = 1 :=
+  ⟨toMatrix_matMul hA hB, toMatrix_transpose hA, toMatrix_idMatrix n⟩
+
+example : naturalRepresentation [1, 2, 0] = .ok [[0, 0, 1], [1, 0, 0], [0, 1, 0]] := by decide
+
+/-! ## germinate / is_group -/
+
+/-- on a set of permutations of `n` points `germinate` terminates (the fuel `n! + 1` of the model is never
+    exhausted) and returns the generated subgroup: duplicate-free, contains the generators, closed under
+    inverse and product, and contained in every closed set containing the generators -/
+theorem germinate_spec {n : ℕ} {s : List (List ℕ)} (hs : ∀ p ∈ s, isPerm p = true ∧ p.length = n) :
+    ∃ g, germinate s = .ok g ∧ IsGenerated n s g :=
+  germinate_ok fun p hp => ⟨isPerm_iff.1 (hs p hp).1, (hs p hp).2⟩
+
+/-- the error branches of the real code: ValueError iff some element is not a permutation, else
+    AssertionError iff two elements have different lengths -/
+theorem germinate_errors (s : List (List ℕ)) :
+    ((∃ p ∈ s, isPerm p = false) → germinate s = .error .value) ∧
+    ((∀ p ∈ s, isPerm p = true) → (∃ p ∈ s, ∃ q ∈ s, p.length ≠ q.length) → germinate s = .error .assertion) := by
+  constructor
+  · rintro ⟨p, hp, h⟩
+    exact germinate_value ⟨p, hp, isPerm_false_iff.1 h⟩
+  · intro h1 h2
+    exact germinate_assertion (fun p hp => isPerm_iff.1 (h1 p hp)) h2
+
+/-- `is_group` decides the group axioms on a non-empty set of permutations of `n` points -/
+theorem is_group_spec {n : ℕ} {g : List (List ℕ)} (hne : g ≠ []) (hg : ∀ p ∈ g, isPerm p = true ∧ p.length = n) :
+    ∃ b, isGroup g = .ok b ∧
+      (b = true ↔ identity n ∈ g ∧ (∀ p ∈ g, inverseRaw p ∈ g) ∧ (∀ p ∈ g, ∀ q ∈ g, composeRaw p q ∈ g)) :=
+  isGroup_eq hne fun p hp => ⟨isPerm_iff.1 (hg p hp).1, (hg p hp).2⟩
+
+/-- `is_group (germinate s)` for non-empty `s` -/
+theorem is_group_germinate {n : ℕ} {s g : List (List ℕ)} (hne : s ≠ [])
+    (hs : ∀ p ∈ s, isPerm p = true ∧ p.length = n) (hg : germinate s = .ok g) : isGroup g = .ok true := by
+  obtain ⟨g', h1, h2⟩ := germinate_spec hs
+  rw [hg] at h1
+  cases h1
+  exact isGroup_of_isGenerated hne h2
+
+example : germinate [[1, 0, 2], [0, 2, 1]] = .ok [[1, 0, 2], [0, 2, 1], [0, 1, 2], [1, 2, 0], [2, 0, 1], [2, 1, 0]] ∧
+    germinate [[0, 0]] = .error .value ∧ germinate [[0, 1], [0, 1, 2]] = .error .assertion := by decide +kernel
+
+/-! ## germinate_formulas -/
+
+/-- whenever `germinate_formulas` returns `(f0, G)`: the letters of `f0` are distinct, every term of the formula
+    is a rearrangement of `f0`, and `G` is a finite signed permutation group on `len f0` indices (contains `(1, id)`,
+    closed under `(s,p) ↦ (s,p⁻¹)` and `((s₁,p₁),(s₂,p₂)) ↦ (s₁s₂, p₁∘p₂)`), duplicate-free, containing the signed
+    permutation of every term, and minimal with these properties.  (The model's fuel `2·n! + 1` is never exhausted:
+    the result is never `.error .fuel`.) -/
+theorem germinate_formulas_spec {formula : String} {f0 : List Char} {G : List SPerm}
+    (h : germinateFormulas formula = .ok (f0, G)) :
+    f0.Nodup ∧ IsSignedGroup f0.length G ∧ G.Nodup ∧
+      (∀ t ∈ parseTerms formula, termOk f0 t.2 = true ∧ termPerm f0 t ∈ G) ∧
+      (∀ T : SPerm → Prop, (∀ t ∈ parseTerms formula, T (termPerm f0 t)) → (∀ a, T a → T (sInv a)) →
+        (∀ a b, T a → T b → T (sMul a b)) → ∀ a ∈ G, T a) :=
+  germinateFormulas_ok h
+
+/-- the three branches of `germinate_formulas` (after splitting the string): AssertionError iff the first term is
+    negated, else RuntimeError iff some term is not a rearrangement of the first, else it returns — the closure
+    loop always terminates within the model's fuel `2·n! + 1` -/
+theorem germinate_formulas_branches {formula : String} {s0 : ℤ} {f0 : List Char} {rest : List (ℤ × List Char)}
+    (hp : parseTerms formula = (s0, f0) :: rest) :
+    (s0 ≠ 1 → germinateFormulas formula = .error .assertion) ∧
+    (s0 = 1 → (∃ t ∈ (s0, f0) :: rest, termOk f0 t.2 = false) → germinateFormulas formula = .error .runtime) ∧
+    (s0 = 1 → (∀ t ∈ (s0, f0) :: rest, termOk f0 t.2 = true) → ∃ G, germinateFormulas formula = .ok (f0, G)) :=
+  germinateFormulas_branches hp
+
+/-- the closure loop itself (after parsing): on generators that are signed permutations of `n` indices it
+    terminates and returns the generated signed group -/
+theorem germinate_signed_spec {n : ℕ} {gens : List SPerm} (hne : gens ≠ [])
+    (hg : ∀ a ∈ gens, (a.1 = 1 ∨ a.1 = -1) ∧ isPerm a.2 = true ∧ a.2.length = n) :
+    ∃ G, germinateSigned n gens = .ok G ∧ IsSignedGroup n G ∧ G.Nodup ∧ (∀ a ∈ gens, a ∈ G) ∧
+      (∀ T : SPerm → Prop, (∀ a ∈ gens, T a) → (∀ a, T a → T (sInv a)) →
+        (∀ a b, T a → T b → T (sMul a b)) → ∀ a ∈ G, T a) :=
+  germinateSigned_ok hne fun a ha => ⟨(hg a ha).1, isPerm_iff.1 (hg a ha).2.1, (hg a ha).2.2⟩
+
+/-- `ijk=-jik=kij` (string parsing is not kernel-reducible; its terms are `ijk`, `-jik`, `kij`) generates the
+    alternating-signed S₃ -/
+example : germinateSigned 3 [termPerm ['i', 'j', 'k'] (1, ['i', 'j', 'k']), termPerm ['i', 'j', 'k'] (-1, ['j', 'i', 'k']),
+      termPerm ['i', 'j', 'k'] (1, ['k', 'i', 'j'])] =
+    .ok [(1, [0, 1, 2]), (-1, [1, 0, 2]), (1, [1, 2, 0]), (1, [2, 0, 1]), (-1, [0, 2, 1]), (-1, [2, 1, 0])] := by
+  decide +kernel
+
+/-! ## reduce_permutation
+
+`rows := reduceCore G dims` is the list `ret` of the real code; row `i` of the float tensor `Q` has the entry
+`s / sqrt(len rows[i])` at the multi-index `e` for every `(s, e) ∈ rows[i]` and `0` elsewhere
+(`coef r e` is the numerator).  Hypotheses: `G` is a signed group on `n` indices (what `germinate_formulas` returns,
+`germinate_formulas_spec`), `dims` has one entry per index and passed the dimension bookkeeping
+(`reduce_permutation_dims`). -/
+
+section Reduce
+variable {n : ℕ} {G : List SPerm} {dims : List ℕ}
+
+/-- the dimension loop: whenever `reduce_permutation` returns on a signed group, indices exchanged by a group
+    element got the same dimension, one per index -/
+theorem reduce_permutation_dims {f0 : List Char} {dims0 : Dims} {out : Out}
+    (h : reducePermutation f0 G dims0 = .ok out) (hG : IsSignedGroup f0.length G) (hf : f0.Nodup) :
+    DimsCompatible G out.dims ∧ out.dims.length = f0.length ∧ out.rows = reduceCore G out.dims := by
+  refine ⟨(reducePermutation_dims h hG hf).1, (reducePermutation_dims h hG hf).2, ?_⟩
+  unfold reducePermutation at h
+  split at h
+  · cases h
+  · split_ifs at h
+    cases h
+    rfl
+
+/-- the index set of the tensor: all multi-indices below `dims` -/
+theorem full_base_mem {x : List ℕ} :
+    x ∈ fullBase dims ↔ x.length = dims.length ∧ ∀ k (h : k < x.length) (h' : k < dims.length), x[k] < dims[k] :=
+  mem_fullBase
+
+/-- entries: every row is non-empty, its entries are `±1` (before the common factor `1/sqrt(len row)`) at pairwise
+    distinct multi-indices of the tensor; hence `Σ coef² = len row`, i.e. every row of `Q` has unit norm -/
+theorem reduce_rows_entries (hG : IsSignedGroup n G) (hd : dims.length = n) (hc : DimsCompatible G dims) :
+    ∀ r ∈ reduceCore G dims,
+      r ≠ [] ∧ (∀ e ∈ r, (e.1 = 1 ∨ e.1 = -1) ∧ e.2 ∈ fullBase dims) ∧ (r.map (·.2)).Nodup ∧
+      ((fullBase dims).map fun x => coef r x ^ 2).sum = r.length := fun r hr =>
+  ⟨(row_entries hG hd hc r hr).1, (row_entries hG hd hc r hr).2.1, (row_entries hG hd hc r hr).2.2,
+    coef_sq_sum hG hd hc r hr⟩
+
+/-- distinct rows have disjoint supports (with unit norm: the rows of `Q` are orthonormal) -/
+theorem reduce_rows_disjoint (hG : IsSignedGroup n G) (hd : dims.length = n) :
+    (reduceCore G dims).Pairwise (fun r₁ r₂ => ∀ e₁ ∈ r₁, ∀ e₂ ∈ r₂, e₁.2 ≠ e₂.2) :=
+  rows_disjoint hG hd
+
+/-- orthogonality of distinct rows: pointwise `row₁[x] · row₂[x] = 0`.  Together with `Σ coef² = len row`
+    (`reduce_rows_entries`) and `Q[i, x] = coef rows[i] x / sqrt(len rows[i])`: `Q Qᵀ = 1` -/
+theorem reduce_rows_orthogonal (hG : IsSignedGroup n G) (hd : dims.length = n) :
+    (reduceCore G dims).Pairwise (fun r₁ r₂ => ∀ x, coef r₁ x * coef r₂ x = 0) := by
+  refine (rows_disjoint hG hd).imp ?_
+  intro r₁ r₂ h x
+  by_cases hx : ∃ e ∈ r₁, e.2 = x
+  · obtain ⟨e₁, he₁, rfl⟩ := hx
+    rw [coef_of_not_mem (r := r₂) (fun e₂ he₂ hh => h e₁ he₁ e₂ he₂ hh.symm), mul_zero]
+  · rw [coef_of_not_mem (r := r₁) (fun e he hh => hx ⟨e, he, hh⟩), zero_mul]
+
+/-- every row satisfies every formula of the group: `row[x] = s · row[x ∘ p]` for all `(s, p) ∈ G` -/
+theorem reduce_rows_invariant (hG : IsSignedGroup n G) (hd : dims.length = n) :
+    ∀ r ∈ reduceCore G dims, Invariant G dims (coef r) :=
+  row_invariant hG hd
+
+/-- completeness: every tensor satisfying the formulas is a combination of the rows -/
+theorem reduce_rows_complete (hG : IsSignedGroup n G) (hd : dims.length = n) (hc : DimsCompatible G dims) :
+    ∀ T, Invariant G dims T → ∀ x ∈ fullBase dims,
+      T x = ((reduceCore G dims).map fun r => rowCoeff T r * coef r x).sum :=
+  rows_complete hG hd hc
+
+/-- the rows are exactly the non-cancelling orbits: `x` lies in the support of some row iff its orbit does not
+    contain `(-1, x)` (otherwise `T[x] = -T[x] = 0`); so `len ret` = number of non-cancelling orbits -/
+theorem reduce_rows_support (hG : IsSignedGroup n G) (hd : dims.length = n) :
+    ∀ x ∈ fullBase dims, (∃ r ∈ reduceCore G dims, ∃ e ∈ r, e.2 = x) ↔ ((-1 : ℤ), x) ∉ orbit G x :=
+  support_iff hG hd
+
+/-- the hypotheses are satisfiable and the statement is not vacuous: `ij=-ji`, `i, j ∈ range(3)` gives the three
+    antisymmetric basis tensors -/
+example : germinateSigned 2 [(1, [0, 1]), (-1, [1, 0])] = .ok [(1, [0, 1]), (-1, [1, 0])] ∧
+    (reducePermutation ['i', 'j'] [(1, [0, 1]), (-1, [1, 0])] [('i', 3)]).toOption.map (·.rows) =
+      some [[(-1, [0, 1]), (1, [1, 0])], [(-1, [0, 2]), (1, [2, 0])], [(-1, [1, 2]), (1, [2, 1])]] := by
+  decide +kernel
+
+example : ∃ G, IsSignedGroup 2 G ∧ DimsCompatible G [3, 3] ∧ (reduceCore G [3, 3]).length = 3 := by
+  obtain ⟨G, hG, hgrp, _⟩ := germinate_signed_spec (n := 2) (gens := [(1, [0, 1]), (-1, [1, 0])]) (by simp)
+    (by decide)
+  have : G = [(1, [0, 1]), (-1, [1, 0])] := by
+    have h2 : germinateSigned 2 [(1, [0, 1]), (-1, [1, 0])] = .ok [(1, [0, 1]), (-1, [1, 0])] := by decide +kernel
+    rw [h2] at hG; exact (Except.ok.inj hG).symm
+  subst this
+  exact ⟨_, hgrp, by unfold DimsCompatible; decide, by decide +kernel⟩
+
+end Reduce
+
 end E3nnVerif.Props.C17
